@@ -7,6 +7,7 @@
    [o_out r] is what was sent.  [register]/[register_all] model ServerStats::register of the daemon
    (eleven AtomicU64 counters, wrapping at 2^64). *)
 From V Require Import Model.RateCache Model.Server Proofs.RateCache Proofs.Server.
+From V Require Import Gen.ConstServer.
 
 (* Exactly one registration on every path (early ignore, parse error, wrong mode, version not
    accepted, NTS required, answer sent, serialisation failure), and its response kind is what was
@@ -95,6 +96,13 @@ Example C21_nonvacuous :
      /\ o_regs r = [(4, true, InternalError, RIgnore)] /\ o_out r = OIgnore)
   /\ stats_run [(1, 4, 3); (0, 0, 2); (1, 2, 0); (0, 4, 1)] = [4; 1; 1; 0; 1; 0; 2; 1; 0; 0; 1].
 Proof. split; [eexists; split; [vm_compute; reflexivity|split; reflexivity]|vm_compute; reflexivity]. Qed.
+
+(* census, regenerated from the sources on every run: the handler has one registration call per modelled exit
+   (8 with the repair of C15's finding, 7 on the pinned tree), the daemon has eleven counters and one call of
+   Server::handle. *)
+Example C21_site_census :
+  (SRV_REGISTER_CALLS = 8 \/ SRV_REGISTER_CALLS = 7) /\ DAEMON_STATS_COUNTERS = 11 /\ DAEMON_HANDLE_CALLS = 1.
+Proof. repeat split; try reflexivity. first [left; reflexivity|right; reflexivity]. Qed.
 
 Print Assumptions C21_exactly_one.
 Print Assumptions C21_kind_matches.
